@@ -15,6 +15,7 @@ inductive Kind where
   | uint32     -- A_UINT32, no encoding
   | float64    -- A_FLOAT64: the value is its IEEE-754 binary64 bit pattern
   | bytes      -- A_BYTEFIELD of BIT-LENGTH / 8 bytes
+  | ascii      -- A_ASCIISTRING (ISO-8859-1, the default encoding) of BIT-LENGTH / 8 characters
 deriving Repr, DecidableEq, Inhabited
 
 /-- an explicitly or implicitly positioned VALUE parameter with a standard-length type and the identical compu
@@ -34,6 +35,7 @@ def Obj.bt (o : Obj) : BaseType :=
   | .uint32 => .uint32
   | .float64 => .float64
   | .bytes => .bytefield
+  | .ascii => .ascii
 
 def Obj.toParam (o : Obj) : Param :=
   .mk o.name o.bytePos o.bitPos (.value (.simple (.std o.bt o.enc o.hl o.bl none false) o.bt .identical) none)
@@ -44,6 +46,7 @@ def Obj.encOk (o : Obj) : Prop :=
   | .uint32 => o.enc = none ∨ o.enc = some .none_
   | .float64 => o.enc = none ∨ o.enc = some .none_
   | .bytes => o.enc = none ∨ o.enc = some .none_
+  | .ascii => o.enc = none ∨ o.enc = some .iso1
 
 /-- the sizes the kind admits: integers up to 64 bits (the limit of the bitstruct module), floats exactly 64,
     byte fields whole bytes (the byte order flag is immaterial for them: `bytefield_hl_irrelevant`; the objects
@@ -54,6 +57,7 @@ def Obj.sizeOk (o : Obj) : Prop :=
   | .uint32 => o.bl ≤ 64
   | .float64 => o.bl = 64
   | .bytes => o.bl % 8 = 0 ∧ o.hl = true
+  | .ascii => o.bl % 8 = 0 ∧ o.hl = true
 
 def Obj.ok (o : Obj) : Prop := o.encOk ∧ 1 ≤ o.bl ∧ o.sizeOk
 def Obj.isInt (o : Obj) : Prop := o.kind = .int32 ∨ o.kind = .uint32
@@ -68,6 +72,7 @@ def Obj.raw (o : Obj) (v : IVal) : Nat :=
   | .uint32, .int i => i.toNat
   | .float64, .flt b => b
   | .bytes, .bytes b => ofBytesBE b
+  | .ascii, .str cps => ofBytesBE cps
   | _, _ => 0
 
 /-- the internal value of a `bl`-bit pattern -/
@@ -77,6 +82,7 @@ def Obj.ofRaw (o : Obj) (r : Nat) : IVal :=
   | .uint32 => .int r
   | .float64 => .flt r
   | .bytes => .bytes (toBytesBE ((o.bl + 7) / 8) (r * 2 ^ ((8 - o.bl % 8) % 8)))
+  | .ascii => .str (toBytesBE ((o.bl + 7) / 8) (r * 2 ^ ((8 - o.bl % 8) % 8)))
 
 /-- the internal values the object can represent -/
 def Obj.inRange (o : Obj) (v : IVal) : Prop :=
@@ -85,6 +91,7 @@ def Obj.inRange (o : Obj) (v : IVal) : Prop :=
   | .uint32, .int i => 0 ≤ i ∧ i < 2 ^ o.bl
   | .float64, .flt b => b < 2 ^ o.bl
   | .bytes, .bytes b => 8 * b.length = o.bl ∧ AllBytes b
+  | .ascii, .str cps => 8 * cps.length = o.bl ∧ AllBytes cps
   | _, _ => False
 
 /-- Boolean version of `inRange` -/
@@ -94,6 +101,7 @@ def Obj.accepts (o : Obj) (v : IVal) : Bool :=
   | .uint32, .int i => decide (0 ≤ i) && decide (i < 2 ^ o.bl)
   | .float64, .flt b => decide (b < 2 ^ o.bl)
   | .bytes, .bytes b => decide (8 * b.length = o.bl) && b.all (fun x => decide (x < 256))
+  | .ascii, .str cps => decide (8 * cps.length = o.bl) && cps.all (fun x => decide (x < 256))
   | _, _ => false
 
 /-- the bit patterns that are the representation of some value (all but "negative zero") -/
@@ -132,6 +140,14 @@ theorem Obj.raw_spec (o : Obj) (ho : o.ok) (v : IVal) (hr : o.inRange v) :
     have e1 : (o.bl + 7) / 8 = b.length := by omega
     have e2 : (8 - o.bl % 8) % 8 = 0 := by omega
     rw [e1, e2, Nat.pow_zero, Nat.mul_one, toBytesBE_ofBytesBE b hall]
+  · rename_i b
+    obtain ⟨hlen, hall⟩ := hr
+    have hlt := ofBytesBE_lt b hall
+    rw [pow256, hlen] at hlt
+    refine ⟨hlt, ?_⟩
+    have e1 : (o.bl + 7) / 8 = b.length := by omega
+    have e2 : (8 - o.bl % 8) % 8 = 0 := by omega
+    rw [e1, e2, Nat.pow_zero, Nat.mul_one, toBytesBE_ofBytesBE b hall]
 
 theorem Obj.canon_lt (o : Obj) (r : Nat) (hc : o.canon r) : r < 2 ^ o.bl := by
   unfold Obj.canon at hc
@@ -159,6 +175,29 @@ theorem Obj.canon_spec (o : Obj) (ho : o.ok) (r : Nat) (hc : o.canon r) :
     rw [pow256]
     have : 8 * ((o.bl + 7) / 8) = o.bl := by omega
     rw [this]; exact hc
+  · have e2 : (8 - o.bl % 8) % 8 = 0 := by omega
+    rw [e2, Nat.pow_zero, Nat.mul_one]
+    refine ⟨⟨by rw [toBytesBE_length]; omega, toBytesBE_allBytes _ _⟩, ?_⟩
+    apply ofBytesBE_toBytesBE_of_lt
+    rw [pow256]
+    have : 8 * ((o.bl + 7) / 8) = o.bl := by omega
+    rw [this]; exact hc
+
+theorem flatten_singletons (cs : List Nat) : (cs.map fun c => [c]).flatten = cs := by
+  induction cs with
+  | nil => rfl
+  | cons c cs ih => simp [ih]
+
+/-- ISO-8859-1: code points below 256 are their own bytes -/
+theorem latin1_encode (cps : List Nat) (h : AllBytes cps) : Text.encode .latin1 cps = some cps := by
+  have key : cps.mapM (fun c => if c < 256 then some [c] else none) = some (cps.map fun c => [c]) := by
+    induction cps with
+    | nil => rfl
+    | cons c cs ih =>
+      have hc : c < 256 := h c (List.mem_cons_self ..)
+      have := ih (fun x hx => h x (List.mem_cons_of_mem _ hx))
+      simp [List.mapM_cons, hc, this]
+  simp only [Text.encode, key, Option.map_some, flatten_singletons]
 
 /-- where the object goes: origin + BYTE-POSITION, or the cursor -/
 def Obj.pos (o : Obj) (origin cursor : Nat) : Nat :=
@@ -237,6 +276,19 @@ theorem encodeParam_obj (o : Obj) (ho : o.ok) (v : IVal) (hr : o.inRange v) (fue
         hfit1, hfit2, hsub, hb0, hm8, hge, hmask, hhl]
       cases hb : o.bytePos <;>
         simp [encStep, Obj.raw, hkind, Obj.pos, Obj.k, Obj.bp, Obj.mask, ord, toBytesBE_length, hhl, hb]
+  · rename_i b
+    obtain ⟨hlen, hall⟩ := hr
+    obtain ⟨hm8, hhl⟩ := hsz
+    have hfit1 : ¬ (o.bl < 8 * b.length) := by omega
+    have hfit2 : ¬ (8 * b.length < o.bl) := by omega
+    have hsub : 8 * b.length - o.bl = 0 := by omega
+    have hlat := latin1_encode b hall
+    rcases hk with he | he <;>
+    · simp [Obj.toParam, Obj.bt, hkind, encodeParam, encodeDop, encodeDct, typeAdmits, emplaceAtomic, emplaceBytes, fitBytes,
+        stringCodec, hlat, bind, pure, run_ite, run_bind, run_pure, run_getS, run_setS, run_modifyS, run_raise,
+        BaseType.isNumeric, odxassert, he, hfit1, hfit2, hsub, hb0, hm8, hge, hmask, hhl]
+      cases hb : o.bytePos <;>
+        simp [encStep, Obj.raw, hkind, Obj.pos, Obj.k, Obj.bp, Obj.mask, ord, toBytesBE_length, hhl, hb]
 
 /-- the decoder's effect for one object -/
 def decStep (o : Obj) (d : DecState) : IVal × DecState :=
@@ -289,6 +341,15 @@ theorem decodeParam_obj (o : Obj) (ho : o.ok) (fuel : Nat) (d : DecState)
       all_goals
         simp [Obj.toParam, Obj.bt, Obj.ofRaw, hkind, decodeParam, decodeDop, decodeDct, extractAtomic, extractCore, convertRaw,
           bind, pure, run_bind, run_pure, run_getS, run_modifyS, run_ite, run_raise, BaseType.isNumeric, odxassert, hb0, hnl,
+          he, hb, hm8, hhl, decStep, Obj.pos, Obj.k, Obj.bp]
+  · obtain ⟨hm8, hhl⟩ := hsz
+    cases hb : o.bytePos <;> simp only [hb] at hlen
+    all_goals
+      have hnl : ¬ (d.msg.length < _ + (o.bl + o.bitPos.getD 0 + 7) / 8) := Nat.not_lt.mpr hlen
+      rcases hk with he | he
+      all_goals
+        simp [Obj.toParam, Obj.bt, Obj.ofRaw, hkind, decodeParam, decodeDop, decodeDct, extractAtomic, extractCore, convertRaw,
+          stringCodec, Text.decode, bind, pure, run_bind, run_pure, run_getS, run_modifyS, run_ite, run_raise, BaseType.isNumeric, odxassert, hb0, hnl,
           he, hb, hm8, hhl, decStep, Obj.pos, Obj.k, Obj.bp]
 
 /-- the byte-order flag of a byte field is immaterial (only numeric objects are byte-swapped) -/
@@ -359,6 +420,19 @@ theorem encodeParam_const_obj (o : Obj) (ho : o.ok) (v : IVal) (hr : o.inRange v
         hfit1, hfit2, hsub, hb0, hm8, hge, hmask, hhl]
       cases hb : o.bytePos <;>
         simp [encStep, Obj.raw, hkind, Obj.pos, Obj.k, Obj.bp, Obj.mask, ord, toBytesBE_length, hhl, hb]
+  · rename_i b
+    obtain ⟨hlen, hall⟩ := hr
+    obtain ⟨hm8, hhl⟩ := hsz
+    have hfit1 : ¬ (o.bl < 8 * b.length) := by omega
+    have hfit2 : ¬ (8 * b.length < o.bl) := by omega
+    have hsub : 8 * b.length - o.bl = 0 := by omega
+    have hlat := latin1_encode b hall
+    rcases hk with he | he <;> rcases hpv with rfl | rfl <;>
+    · simp [Obj.toConstParam, Obj.bt, hkind, encodeParam, encodeDct, emplaceAtomic, emplaceBytes, fitBytes,
+        stringCodec, hlat, bind, pure, run_ite, run_bind, run_pure, run_getS, run_setS, run_modifyS, run_raise, BaseType.isNumeric, odxassert, he,
+        hfit1, hfit2, hsub, hb0, hm8, hge, hmask, hhl]
+      cases hb : o.bytePos <;>
+        simp [encStep, Obj.raw, hkind, Obj.pos, Obj.k, Obj.bp, Obj.mask, ord, toBytesBE_length, hhl, hb]
 
 /-- decoding a CODED-CONST parameter returns what is on the wire (a mismatch with the constant is only warned about) -/
 theorem decodeParam_const_obj (o : Obj) (ho : o.ok) (v : IVal) (fuel : Nat) (d : DecState)
@@ -406,6 +480,15 @@ theorem decodeParam_const_obj (o : Obj) (ho : o.ok) (v : IVal) (fuel : Nat) (d :
       all_goals
         simp [Obj.toConstParam, Obj.bt, Obj.ofRaw, hkind, decodeParam, decodeDct, extractAtomic, extractCore, convertRaw,
           bind, pure, run_bind, run_pure, run_getS, run_modifyS, run_ite, run_raise, BaseType.isNumeric, odxassert, hb0, hnl,
+          he, hb, hm8, hhl, decStep, Obj.pos, Obj.k, Obj.bp]
+  · obtain ⟨hm8, hhl⟩ := hsz
+    cases hb : o.bytePos <;> simp only [hb] at hlen
+    all_goals
+      have hnl : ¬ (d.msg.length < _ + (o.bl + o.bitPos.getD 0 + 7) / 8) := Nat.not_lt.mpr hlen
+      rcases hk with he | he
+      all_goals
+        simp [Obj.toConstParam, Obj.bt, Obj.ofRaw, hkind, decodeParam, decodeDct, extractAtomic, extractCore, convertRaw,
+          stringCodec, Text.decode, bind, pure, run_bind, run_pure, run_getS, run_modifyS, run_ite, run_raise, BaseType.isNumeric, odxassert, hb0, hnl,
           he, hb, hm8, hhl, decStep, Obj.pos, Obj.k, Obj.bp]
 
 end OdxVerif.Codec
